@@ -82,14 +82,14 @@ def run(ctx):
     from ..core import MachineryError
     cases = key_check.enumerate_cases(ctx, 1 if ctx.quick() else 2)
     key_check.module()
-    out = pmap(key_check.observe, [(i, c, ['dict', 'ns'], ctx.seed) for i, c in enumerate(cases)])
+    out = pmap(key_check.observe, [(i, c, ['dict', 'ns', 'xns'], ctx.seed) for i, c in enumerate(cases)])
     ctx.traces += len(cases)
     for idx, bad, info in out:
         ctx.case(cases[idx]['repr'] + f"|{cases[idx]['yv']}{cases[idx]['zv']}", nontrivial=cases[idx]['va']['t'] != 'lit')
         for cat, sig, what in bad:
             if cat == 'harness':
                 raise MachineryError(what)
-            if cat == 'rewrite' and not sig.startswith('rewrite:ns'):
+            if cat == 'rewrite' and not sig.startswith(('rewrite:ns', 'rewrite:xns:')):
                 ctx.note(f'rewrite divergence (belongs to C02): {what[:160]}')
                 continue
             ctx.report(sig, what, detail=cases[idx])
@@ -104,6 +104,9 @@ def run(ctx):
             ctx.report(sig, what, detail=cases[idx])
     for cat, sig, what in run_forked(_name_mode, None):
         ctx.report(sig, what)
+    # the naming part of the scheme: class -> group:name -> directory (specs/Naming.tla)
+    from .. import naming_check
+    naming_check.run(ctx)
     # golden vectors: pin the hash function and truncation (computed once from the pinned commit)
     golden = json.loads((VERIF / 'specs' / 'golden_keys.json').read_text())
     byrepr = {(c['repr'], c['yv'], c['zv']): c for c in cases}
